@@ -229,6 +229,9 @@ MsgOfEv(e) == IF Has(e, "s") THEN e.s.msg ELSE IF Has(e, "msg") THEN e.msg ELSE 
 DataOfEv(e) == IF Has(e, "s") THEN e.s.data ELSE << >>
 TwinViol(e) ==
     IF ~Has(e, "twin") THEN {}
+    ELSE IF e.twinmode = "msgonly"
+         THEN IF e.r = e.twin.r /\ MsgOfEv(e) = MsgOfEv(e.twin) THEN {}
+              ELSE V(e.twinprop, "result / decoded message differs from its twin (" \o e.twinwhy \o ")")
     ELSE IF e.twinmode = "msg"
          THEN IF e.r = e.twin.r /\ MsgOfEv(e) = MsgOfEv(e.twin) /\ DataOfEv(e) = DataOfEv(e.twin) THEN {}
               ELSE V(e.twinprop, "result / payload / decoded message differs from its twin (" \o e.twinwhy \o ")")
